@@ -41,11 +41,11 @@ CLAIMED = {
             "Not proved in Lean: insert-then-remove restores the control points for all inputs (checked by oracle + correspondence only); 'whenever removable at all'. "
             "Volumes: only removable knots generated (the code derives one removability flag from the first iso-curve)."),
     'C07': ("7/C07",
-            "Lean theorems: split at a domain end is rejected; decomposition of a Bezier shape returns it unchanged; window locality and affine invariance of A2.2 (the two "
-            "ingredients, with C04, of 'each piece coincides with the original under the affine map of its domain'). The model (insertion to multiplicity p, knot/net slices, "
+            "Lean theorems (curves, span level): left_piece_coincides / right_piece_coincides - the two pieces as split_curve builds them (knot slices + extra copies of the parameter, net slices [:m-p+1] and [m-p:]) evaluate like the refined curve (which by C04 is the original) on every span left / right of the split parameter; normalized_piece_coincides - the normalisation of a piece's knot vector is the affine map of its domain; split at a domain end is rejected; decomposition of a Bezier shape returns it unchanged; window locality and affine invariance of A2.2. "
+            "The model (insertion to multiplicity p, knot/net slices, "
             "normalisation of the pieces' knot vectors, decomposition loop with u-major order for 'uv') is tied to operations.split_curve / split_surface_u / split_surface_v / "
             "decompose_curve / decompose_surface by exact correspondence; the exact oracle checks every piece against the original under the affine domain map, piece counts and order, input untouched.",
-            "Not proved: the assembled theorem 'piece = original on its sub-interval' (oracle + correspondence only)."),
+            "Not proved: the end-to-end statement through splitDir / decomposeDir with the spans found by the search and the closed end parameter, and the surface case (oracle + correspondence); the span-level theorems compose with C04's insertion theorem."),
     'C02': ("7/C02",
             "Lean theorems: curve_derivatives_are_true_derivatives - entry k of the model of Curve.derivatives(u, order) (A3.3 + A3.4) equals the k-th iterated Polynomial.derivative of the span polynomial evaluated at u, "
             "for EVERY k <= order (zero above the degree), every degree, sorted knot vector, non-empty span, parameter, dimension (the derivative from the right at knots); the span polynomial evaluates to the curve point (ties to C01); "
